@@ -432,6 +432,9 @@ class Buildable(Generic[T], metaclass=abc.ABCMeta):
       if key < 0:
         key += len(all_positional_args)
       indices = [key]
+    if var_positional_start is None:
+      # No *args: every positional argument belongs to the fixed prefix.
+      var_positional_start = len(all_positional_args)
 
     old_placeholders = [
         _Placeholder(index) for index in range(len(all_positional_args))
